@@ -315,7 +315,10 @@ func c17StreamOrder(c *Ctx) {
 			c.Analysed(p.FName(fn))
 			bad := ""
 			for _, b := range bodies {
-				same := b.m == t.m || dependsOn(b.m, func(x ssa.Value) bool { return x == t.m }) || dependsOn(t.m, func(x ssa.Value) bool { return x == b.m })
+				// the same member: one value, or one a copy of the other through merges, conversions and
+				// local cells - not "computed from something the other was stored into" (the index of a
+				// second loop derived from how many members the first loop added)
+				same := b.m == t.m || dependsOnNoCall(b.m, func(x ssa.Value) bool { return x == t.m }) || dependsOnNoCall(t.m, func(x ssa.Value) bool { return x == b.m })
 				if !same {
 					// copies of one member: *mf = *f
 					if root := c17MemberRoot(t.m); root != nil && root == c17MemberRoot(b.m) {
@@ -675,29 +678,88 @@ func c17Round3(c *Ctx) {
 		c.Undecided("R17n", "zipslicer.ZipToTarSize", "-", "function not found")
 	} else {
 		c.Analysed(p.FName(fn))
+		// the tar headers ZipToTarSize writes: tar.Header literals in the function itself, or in a
+		// helper of the package it calls with the name and the size (tarAddStream today)
 		var cdLen, zipLen ssa.Value
-		for _, ci := range p.callsIn(fn, "lib/zipslicer.tarAddStream") {
-			args := ci.Common().Args
-			if len(args) < 4 {
-				continue
+		classify := func(name, size ssa.Value) {
+			if name == nil || size == nil {
+				return
 			}
-			name := args[2]
 			if u, ok := stripConv(name).(*ssa.UnOp); ok {
 				if g, ok := u.X.(*ssa.Global); ok {
 					switch g.Name() {
 					case "TarMemberCD":
-						cdLen = args[3]
+						cdLen = size
 					case "TarMemberZip":
-						zipLen = args[3]
+						zipLen = size
 					}
 				}
 			}
 			if s, ok := constString(name); ok {
 				switch s {
 				case "zipdir.bin":
-					cdLen = args[3]
+					cdLen = size
 				case "contents.zip":
-					zipLen = args[3]
+					zipLen = size
+				}
+			}
+		}
+		headerFields := func(h *ssa.Function) [][2]ssa.Value {
+			var out [][2]ssa.Value
+			for _, b := range h.Blocks {
+				for _, in := range b.Instrs {
+					al, ok := in.(*ssa.Alloc)
+					if !ok {
+						continue
+					}
+					pt, ok := al.Type().(*types.Pointer)
+					if !ok || !strings.HasSuffix(pt.Elem().String(), "archive/tar.Header") {
+						continue
+					}
+					var pair [2]ssa.Value
+					for _, r := range *al.Referrers() {
+						fa, ok := r.(*ssa.FieldAddr)
+						if !ok {
+							continue
+						}
+						_, f, _ := p.fieldAddr(fa)
+						for _, r2 := range *fa.Referrers() {
+							if st, ok := r2.(*ssa.Store); ok && st.Addr == ssa.Value(fa) {
+								switch f {
+								case "Name":
+									pair[0] = st.Val
+								case "Size":
+									pair[1] = st.Val
+								}
+							}
+						}
+					}
+					out = append(out, pair)
+				}
+			}
+			return out
+		}
+		for _, pair := range headerFields(fn) {
+			classify(pair[0], pair[1])
+		}
+		for _, ci := range callsOf(fn) {
+			h := ci.Common().StaticCallee()
+			if h == nil || h.Pkg != fn.Pkg || h.Blocks == nil {
+				continue
+			}
+			actual := func(v ssa.Value) ssa.Value {
+				if pa, ok := v.(*ssa.Parameter); ok {
+					for i, hp := range h.Params {
+						if hp == pa && i < len(ci.Common().Args) {
+							return ci.Common().Args[i]
+						}
+					}
+				}
+				return v
+			}
+			for _, pair := range headerFields(h) {
+				if pair[0] != nil && pair[1] != nil {
+					classify(actual(pair[0]), actual(pair[1]))
 				}
 			}
 		}
